@@ -336,6 +336,11 @@ fn gen_for(def: &CheckDef, verif_seed: u64, run_no: u64) -> Result<Scenario, Str
     if def.id == "C26" {
         return c26::gen_c26(run_seed);
     }
+    if def.id == "C28" && run_no % 6 == 5 {
+        // the component share of C28: custom sections between the modules of a component whose modules
+        // are instrumented through iterators
+        return c26::gen_c26_for("C28", run_seed);
+    }
     if def.profiles.is_empty() {
         // C18-C20: one run in eight is a structural scenario in which probes of the property's mode
         // sit inside constructs replaced through block-alternate (they must not survive the construct)
